@@ -525,6 +525,9 @@ def coll_oracle(interp, env, f, args, t, bb, path):
         if nm in ("to_vec", "to_owned", "clone") and (sa == "alloc::vec::Vec" or sty.startswith("[") or dk == "core::clone::Clone::clone"):
             return new_vec(interp, items)
         if nm in ("deref", "deref_mut", "as_slice", "as_mut_slice", "as_ref", "as_mut", "borrow", "borrow_mut"):
+            if nm in ("deref", "deref_mut") and isinstance(a0, Ref) and not sty.startswith("alloc::vec::Vec") and isinstance(interp.read_ref(env, a0), (Ref, HRef)):
+                # a guard / smart pointer around the vector (RefMut<Vec<_>>, &mut &mut Vec<_>): its target is the place the vector lives in
+                return interp.read_ref(env, a0)
             return Vec(v0.vid, True, v0.lo, v0.hi)
         if nm == "swap" and all(isinstance(x, int) for x in args[1:3]):
             i, j = args[1], args[2]
